@@ -21,6 +21,14 @@ def fresh_name(base: str) -> str:
     return f"{base}!{next(_counter)}"
 
 
+def reset_names(base: int = 1_000_000) -> None:
+    """Restart the numbering of fresh symbols (called at the start of each function's proof): the VCs of a function
+    then carry the same names whatever was processed before in this process, so the solver's behaviour - which depends
+    on symbol order - is reproducible.  Import-time symbols keep their small numbers, so nothing collides."""
+    global _counter
+    _counter = itertools.count(base)
+
+
 class Ty:
     name: str = "?"
     mutable = False
